@@ -1006,13 +1006,19 @@ class TunnelCommunity(Community):
         This method is usually implemented in subclasses of this community.
         """
 
-    def on_data(self, sock_addr: Address, data: bytes, _: int | None) -> None:
+    def on_data(self, sock_addr: Address, data: bytes, from_circuit_id: int | None) -> None:
         """
         Callback for when we receive a DataPayload out of a circuit.
 
         Data is readable only if this handler is (a) an exit node or (b) the one that created the circuit.
         """
         payload, _ = self.serializer.unpack_serializable(DataPayload, data, offset=23)
+        if from_circuit_id is not None and payload.circuit_id != from_circuit_id:
+            # The session keys of the circuit this message travelled in (or, for a message that an outside host sent
+            # back into one of our own circuits, no keys at all) say nothing about the circuit it names.
+            self.logger.warning("Dropping data for circuit %d that arrived over circuit %d",
+                                payload.circuit_id, from_circuit_id)
+            return
 
         # If it's our circuit, the messenger is the candidate assigned to that circuit and the DATA's destination
         # is set to the zero-address then the packet is from the outside world and addressed to us from.
